@@ -26,6 +26,12 @@ pub fn env_from_words(words: &[Vec<u8>], eos: u32, canonical: bool) -> TokEnv {
     Arc::new(VEnv { trie: TokTrie::from(&info, words), canonical })
 }
 
+/// several end-of-sequence tokens (the first one is the primary)
+pub fn env_from_words_eos(words: &[Vec<u8>], eos: &[u32], canonical: bool) -> TokEnv {
+    let info = TokRxInfo::new(words.len() as u32, eos[0]);
+    Arc::new(VEnv { trie: TokTrie::from(&info, words).with_eos_tokens(eos), canonical })
+}
+
 /// all 256 single bytes + a few special tokens; last one is EOS
 pub fn single_byte_words() -> Vec<Vec<u8>> {
     let mut words: Vec<Vec<u8>> = (0..=255u8).map(|x| vec![x]).collect();
